@@ -115,7 +115,7 @@ Return(h) ==
 IoPull(n) ==
     /\ Alive
     /\ LET h == HandleOf(w, n) IN h # "" /\ w.hs[h].pend # <<>>
-    /\ w' = Settle(Pull(w, n))
+    /\ w' = Settle(PullD(w, n))
     /\ UNCHANGED <<cl, srvin, owed, budget, wire, nextid, sv>>
 
 IoWrite ==
@@ -310,6 +310,12 @@ SlotsLive == \A n \in DOMAIN w.slots : ~w.hs[w.slots[n].h].dead /\ w.hs[w.slots[
 
 \* sealing: once sealed the output buffer only shrinks (checked as an action property)
 SealedShrinks == [][w.sealed => Len(w'.out) <= Len(w.out)]_vars
+
+\* C18 / C08: when the client's own Close is taken (the buffer becomes sealed in the steady phase), nothing a
+\* channel handed over before is left behind in its queue - it would never be written
+CloseTakesAll ==
+    [][(~w.sealed /\ w'.sealed /\ w'.phase = "steady" /\ ~w'.gone)
+       => \A h \in DOMAIN w'.hs \ {"conn"} : w'.hs[h].dead \/ w'.hs[h].pend = <<>>]_vars
 
 \* C09: dispatching a Channel.Close for n leaves every other slot and handle untouched
 ChanCloseScoped ==
